@@ -359,6 +359,7 @@ package go_clipper2
 //@   props C14 C13 C08
 //@   budget 3
 //@   requires domPath(path, 61)
+//@   loop 0.0 entry [the-exactly-summed-prefix-is-carried-into-the-floating-point-sum] absI(af - toReal(a)) <= absI(toReal(a)) / 4503599627370496.0
 //@   loop 0 invariant [in-range] prevPt == path[prevIdx(_i, len(path))] && len(path) >= 3
 //@   loop 0.0 invariant [dom] dom(prevPt, 61)
 
@@ -380,6 +381,9 @@ package go_clipper2
 //@   ensures [sum] result == sumArea(paths, len(paths))
 
 //@ spec onSeg(p, a, b Point64) bool = cross(a, b, p) == 0 && min(a.Y, b.Y) <= p.Y && p.Y <= max(a.Y, b.Y) && (a.Y == b.Y ==> (min(a.X, b.X) <= p.X && p.X <= max(a.X, b.X)))
+// anyEdge(): an arbitrary but fixed edge index (an uninterpreted constant: what is proved for it holds for every edge)
+//@ spec anyEdge() int
+//@ spec passedEdge(k, start, i, end, lenP int) bool = (start < k && k < ite(end == lenP, i, lenP)) || (end != lenP && k < i)
 //@ spec sideOK(isAbove bool, y, ptY int64) bool = ite(isAbove, y <= ptY, y >= ptY)
 //@ func PointInPolygon
 //@   props C14 C03 C04
@@ -389,10 +393,10 @@ package go_clipper2
 //@   assert after return#6 [is-on-at-the-closing-edge-means-the-point-lies-on-that-edge] onSeg(pt, polygon[prevIdx(i, lenP)], polygon[i])
 //@   loop 0 invariant [leading-vertices-on-the-level] forall(k, 0, start, polygon[k].Y == pt.Y)
 //@   loop 1 invariant [the-vertex-before-the-scan-position-is-not-beyond-the-level] sideOK(isAbove, polygon[prevIdx(ite(i == lenP, 0, i), lenP)].Y, pt.Y)
-//@   loop 1 invariant [the-second-pass-ends-at-the-level-vertex-before-the-start] end != lenP ==> (start > 0 && i < end)
+//@   loop 1 invariant [the-second-pass-ends-at-the-level-vertex-before-the-start] (end != lenP ==> (start > 0 && i < end)) && (end == lenP ==> i > start)
 //@   loop 1 invariant [start-vertex] polygon[start].Y != pt.Y && startingAbove == (polygon[start].Y < pt.Y) && (start > 0 ==> polygon[start-1].Y == pt.Y)
-//@   loop 1.0 invariant [the-vertex-before-the-scan-position-is-not-beyond-the-level] isAbove && sideOK(isAbove, polygon[prevIdx(ite(i == lenP, 0, i), lenP)].Y, pt.Y) && (end != lenP ==> (start > 0 && i < end)) && (start > 0 ==> polygon[start-1].Y == pt.Y)
-//@   loop 1.1 invariant [the-vertex-before-the-scan-position-is-not-beyond-the-level] !isAbove && sideOK(isAbove, polygon[prevIdx(ite(i == lenP, 0, i), lenP)].Y, pt.Y) && (end != lenP ==> (start > 0 && i < end)) && (start > 0 ==> polygon[start-1].Y == pt.Y)
+//@   loop 1.0 invariant [the-vertex-before-the-scan-position-is-not-beyond-the-level] isAbove && sideOK(isAbove, polygon[prevIdx(ite(i == lenP, 0, i), lenP)].Y, pt.Y) && (end != lenP ==> (start > 0 && i < end)) && (end == lenP ==> i > start) && (start > 0 ==> polygon[start-1].Y == pt.Y)
+//@   loop 1.1 invariant [the-vertex-before-the-scan-position-is-not-beyond-the-level] !isAbove && sideOK(isAbove, polygon[prevIdx(ite(i == lenP, 0, i), lenP)].Y, pt.Y) && (end != lenP ==> (start > 0 && i < end)) && (end == lenP ==> i > start) && (start > 0 ==> polygon[start-1].Y == pt.Y)
 //@   requires dom(pt, 29) && domPath(polygon, 29)
 //@   loop 0 invariant [idx] 0 <= start && start <= lenP && lenP == len(polygon) && lenP >= 3
 //@   loop 0 decreases lenP - start
@@ -403,6 +407,37 @@ package go_clipper2
 //@   loop 1.1 decreases end - i
 //@   ensures [short] len(polygon) < 3 ==> result == IsOutside
 //@   ensures [range] result == IsOn || result == IsInside || result == IsOutside
+
+// IsOn completeness (C14): a point that is classified inside or outside lies on no edge of the polygon.  anyEdge() is
+// an arbitrary fixed edge index, so the clauses hold for every edge; together with the three IsOn clauses above this
+// makes IsOn exact
+//@ func PointInPolygon variant complete
+//@   props C14 C04
+//@   tier B
+//@   loop 0 invariant [leading-vertices-on-the-level] forall(k, 0, start, polygon[k].Y == pt.Y)
+//@   loop 1 invariant [edges-passed-so-far-do-not-contain-the-point] ((0 <= anyEdge() && anyEdge() < lenP && passedEdge(anyEdge(), start, i, end, lenP)) ==> !onSeg(pt, polygon[prevIdx(anyEdge(), lenP)], polygon[anyEdge()]))
+//@   loop 1.0 invariant [a-level-vertex-before-the-scan-position-is-not-the-point] polygon[prevIdx(ite(i == lenP, 0, i), lenP)].Y == pt.Y ==> polygon[prevIdx(ite(i == lenP, 0, i), lenP)].X != pt.X
+//@   loop 1.0 invariant [edges-passed-so-far-do-not-contain-the-point] ((0 <= anyEdge() && anyEdge() < lenP && passedEdge(anyEdge(), start, i, end, lenP)) ==> !onSeg(pt, polygon[prevIdx(anyEdge(), lenP)], polygon[anyEdge()]))
+//@   loop 1.1 invariant [a-level-vertex-before-the-scan-position-is-not-the-point] polygon[prevIdx(ite(i == lenP, 0, i), lenP)].Y == pt.Y ==> polygon[prevIdx(ite(i == lenP, 0, i), lenP)].X != pt.X
+//@   loop 1.1 invariant [edges-passed-so-far-do-not-contain-the-point] ((0 <= anyEdge() && anyEdge() < lenP && passedEdge(anyEdge(), start, i, end, lenP)) ==> !onSeg(pt, polygon[prevIdx(anyEdge(), lenP)], polygon[anyEdge()]))
+//@   assert after return#4 [a-point-classified-outside-lies-on-no-edge] ((0 <= anyEdge() && anyEdge() < lenP) ==> !onSeg(pt, polygon[prevIdx(anyEdge(), lenP)], polygon[anyEdge()]))
+//@   assert after return#5 [a-point-classified-inside-lies-on-no-edge] ((0 <= anyEdge() && anyEdge() < lenP) ==> !onSeg(pt, polygon[prevIdx(anyEdge(), lenP)], polygon[anyEdge()]))
+//@   assert after return#7 [a-point-classified-outside-lies-on-no-edge-2] ((0 <= anyEdge() && anyEdge() < lenP) ==> !onSeg(pt, polygon[prevIdx(anyEdge(), lenP)], polygon[anyEdge()]))
+//@   assert after return#8 [a-point-classified-inside-lies-on-no-edge-2] ((0 <= anyEdge() && anyEdge() < lenP) ==> !onSeg(pt, polygon[prevIdx(anyEdge(), lenP)], polygon[anyEdge()]))
+//@   loop 1 invariant [the-vertex-before-the-scan-position-is-not-beyond-the-level] sideOK(isAbove, polygon[prevIdx(ite(i == lenP, 0, i), lenP)].Y, pt.Y)
+//@   loop 1 invariant [a-level-vertex-before-the-scan-position-is-not-the-point] polygon[prevIdx(ite(i == lenP, 0, i), lenP)].Y == pt.Y ==> polygon[prevIdx(ite(i == lenP, 0, i), lenP)].X != pt.X
+//@   loop 1 invariant [the-second-pass-ends-at-the-level-vertex-before-the-start] (end != lenP ==> (start > 0 && i < end)) && (end == lenP ==> i > start)
+//@   loop 1 invariant [start-vertex] polygon[start].Y != pt.Y && startingAbove == (polygon[start].Y < pt.Y) && (start > 0 ==> polygon[start-1].Y == pt.Y)
+//@   loop 1.0 invariant [the-vertex-before-the-scan-position-is-not-beyond-the-level] isAbove && sideOK(isAbove, polygon[prevIdx(ite(i == lenP, 0, i), lenP)].Y, pt.Y) && (end != lenP ==> (start > 0 && i < end)) && (end == lenP ==> i > start) && (start > 0 ==> polygon[start-1].Y == pt.Y)
+//@   loop 1.1 invariant [the-vertex-before-the-scan-position-is-not-beyond-the-level] !isAbove && sideOK(isAbove, polygon[prevIdx(ite(i == lenP, 0, i), lenP)].Y, pt.Y) && (end != lenP ==> (start > 0 && i < end)) && (end == lenP ==> i > start) && (start > 0 ==> polygon[start-1].Y == pt.Y)
+//@   requires dom(pt, 29) && domPath(polygon, 29)
+//@   loop 0 invariant [idx] 0 <= start && start <= lenP && lenP == len(polygon) && lenP >= 3
+//@   loop 0 decreases lenP - start
+//@   loop 1 invariant [idx] 0 <= start && start < lenP && lenP == len(polygon) && lenP >= 3 && 0 <= i && i <= end && end <= lenP && (end == lenP || end == start) && 0 <= val && val <= 1
+//@   loop 1.0 invariant [idx] 0 <= start && start < lenP && lenP == len(polygon) && 0 <= i && i <= end && end <= lenP
+//@   loop 1.0 decreases end - i
+//@   loop 1.1 invariant [idx] 0 <= start && start < lenP && lenP == len(polygon) && 0 <= i && i <= end && end <= lenP
+//@   loop 1.1 decreases end - i
 
 // ---------------------------------------------------------------------------------
 // C08: Minkowski sum / difference — construction of the quad set
@@ -643,7 +678,7 @@ package go_clipper2
 //@ spec contributes(ct ClipType, fr FillRule, pt PathType, wc int, dx int, wc2 int) bool = memberSide(ct, pt, ite(fr == EvenOdd, false, fillW(fr, leftW(wc, dx))), ite(fr == EvenOdd, wc2 != 0, fillW(fr, wc2))) != memberSide(ct, pt, ite(fr == EvenOdd, true, fillW(fr, rightW(wc, dx))), ite(fr == EvenOdd, wc2 != 0, fillW(fr, wc2)))
 
 //@ func clipperBase.isContributingClosed
-//@   props C01 C19 C17
+//@   props C01 C19 C17 C02 C04 C05 C08 C09 C10
 //@   requires ae != nil && ae.localMin != nil && (ae.windDx == 1 || ae.windDx == -1)
 //@   requires c.fillRule == EvenOdd || ae.windCount != 0
 //@   requires c.fillRule == EvenOdd || c.fillRule == NonZero || c.fillRule == Positive || c.fillRule == Negative
@@ -659,7 +694,7 @@ package go_clipper2
 //@ spec repOK(wc, d int) bool = (d == 1 || d == -1) && wc != 0
 
 //@ func clipperBase.setWindCountForClosedPathEdge
-//@   props C01 C17 C19
+//@   props C01 C17 C19 C02 C04 C05 C08 C09 C10
 //@   nosafety
 //@   requires ae != nil && (ae.windDx == 1 || ae.windDx == -1)
 //@   loop 0 step [walk-left] ae2 == old(ae2).prevInAEL
@@ -673,7 +708,7 @@ package go_clipper2
 //@   assert after ae.windCount#7 [handover-7] (ae2 != ae && repOK(ae2.windCount, ae2.windDx)) ==> (leftW(ae.windCount, ae.windDx) == rightW(ae2.windCount, ae2.windDx) && ae.windCount != 0)
 
 //@ func clipperBase.intersectEdges
-//@   props C01 C19 C17
+//@   props C01 C19 C17 C02 C04 C05 C08 C09 C10
 //@   nosafety
 //@   requires ae1 != nil && ae2 != nil && ae1 != ae2 && ae1.localMin != nil && ae2.localMin != nil
 //@   requires !c.hasOpenPaths && ae1.joinWith == JoinNone && ae2.joinWith == JoinNone
@@ -688,7 +723,7 @@ package go_clipper2
 // contribution rule (C01, C19) - the same table as isContributingClosed, reached by another code path
 //@ spec normW(fr FillRule, w int) int = ite(fr == Positive, w, ite(fr == Negative, -w, absI(w)))
 //@ func clipperBase.intersectEdges variant coldcross
-//@   props C01 C19 C17
+//@   props C01 C19 C17 C02 C04 C05 C08 C09 C10
 //@   nosafety
 //@   requires ae1 != nil && ae2 != nil && ae1 != ae2 && ae1.localMin != nil && ae2.localMin != nil
 //@   requires !c.hasOpenPaths && ae1.joinWith == JoinNone && ae2.joinWith == JoinNone
@@ -742,7 +777,7 @@ package go_clipper2
 // invariance, C13): checked with rounded float arithmetic, so that forms that are equal over
 // the reals but not in float64 (e.g. dx*cy - dx*by) are told apart
 //@ func topX
-//@   props C13 C01 C17 C19
+//@   props C13 C01 C17 C19 C02 C04 C05 C08 C09 C10
 //@   floats rounded
 //@   requires ae != nil
 //@   assumes absI(currentY) <= pow2(52) && absI(ae.bot.Y) <= pow2(52) && absI(ae.bot.X) <= pow2(52) && absI(ae.top.X) <= pow2(52)
@@ -867,7 +902,7 @@ package go_clipper2
 //@   requires forall(k, 0, len(paths), domPath(paths[k], 29) && (len(paths[k]) <= 4 || noWrap(paths[k])))
 
 //@ func IsOdd
-//@   props C03 C01 C17 C19
+//@   props C03 C01 C17 C19 C02 C04 C05 C08 C09 C10
 //@   panicfree
 //@   inline
 //@   ensures [parity] result == (val%2 != 0)
@@ -1113,7 +1148,7 @@ package go_clipper2
 //@   panicfree
 
 //@ func absInt
-//@   props C03 C14 C01 C17 C19
+//@   props C03 C14 C01 C17 C19 C02 C04 C05 C08 C09 C10
 //@   panicfree
 //@   inline
 //@   ensures [magnitude] (a >= 0 ==> result == a) && (a < 0 ==> (result + a == 0 || toReal(a) <= -9223372036854775808.0))
@@ -1131,7 +1166,7 @@ package go_clipper2
 //@   ensures [two-apart] validLoc(prev) && validLoc(curr) ==> result == (prev - curr == 2 || curr - prev == 2)
 
 //@ func areaTriangle
-//@   props C03 C01 C02 C17 C19
+//@   props C03 C01 C02 C17 C19 C04 C05 C08 C09 C10
 //@   requires dom(pt1, 29) && dom(pt2, 29) && dom(pt3, 29)
 //@   ensures [half-the-cross-product-of-the-corners] result * 2 == toReal(cross(pt1, pt2, pt3))
 
@@ -1236,7 +1271,7 @@ package go_clipper2
 //@   panicfree
 
 //@ func swapActives
-//@   props C03 C01 C17 C19
+//@   props C03 C01 C17 C19 C02 C04 C05 C08 C09 C10
 //@   panicfree
 //@   inline
 //@   ensures [swapped] *ae1 == old(*ae2) && *ae2 == old(*ae1)
@@ -1267,7 +1302,7 @@ package go_clipper2
 //@   ensures [sign] (result > 0) == (cross(pt1, pt2, pt3) > 0) && (result == 0) == (cross(pt1, pt2, pt3) == 0)
 
 //@ func dotProduct64
-//@   props C13 C01 C17 C19
+//@   props C13 C01 C17 C19 C02 C04 C05 C08 C09 C10
 //@   floats rounded
 //@   requires dom(pt1,29) && dom(pt2,29) && dom(pt3,29)
 //@   ensures [sign] (result > 0) == (dotP(pt1, pt2, pt3) > 0) && (result == 0) == (dotP(pt1, pt2, pt3) == 0)
@@ -1283,12 +1318,12 @@ package go_clipper2
 //@   ensures [exact-except-1] (sharedPt.X-pt1.X != 1 && pt2.Y-sharedPt.Y != 1 && sharedPt.Y-pt1.Y != 1 && pt2.X-sharedPt.X != 1) ==> result == (cross(pt1, sharedPt, pt2) == 0)
 
 //@ func getSegmentIntersectPt
-//@   props C01 C13 C17 C19
+//@   props C01 C13 C17 C19 C02 C04 C05 C08 C09 C10
 //@   requires dom(ln1a,29) && dom(ln1b,29) && dom(ln2a,29) && dom(ln2b,29)
 //@   ensures [parallel] (cross(ln1a, ln1b, Point64{ln1b.X + (ln2b.X-ln2a.X), ln1b.Y + (ln2b.Y-ln2a.Y)}) == 0) == !result1
 
 //@ func getSegmentIntersectPt variant box
-//@   props C01 C17 C19
+//@   props C01 C17 C19 C02 C04 C05 C08 C09 C10
 //@   tier B
 //@   forget t
 //@   requires dom(ln1a,29) && dom(ln1b,29) && dom(ln2a,29) && dom(ln2b,29)
@@ -1300,7 +1335,7 @@ package go_clipper2
 //@   requires dom(ln1a,61) && dom(ln1b,61) && dom(ln2a,61) && dom(ln2b,61)
 
 //@ func getDx
-//@   props C01 C13 C17 C19
+//@   props C01 C13 C17 C19 C02 C04 C05 C08 C09 C10
 //@   floats rounded
 //@   requires dom(pt1,61) && dom(pt2,61)
 //@   ensures [slope] pt2.Y != pt1.Y ==> absI(result * toReal(pt2.Y-pt1.Y) - toReal(pt2.X-pt1.X)) <= absI(toReal(pt2.X-pt1.X)) / toReal(pow2(53)) || absI(pt2.X-pt1.X) > pow2(53) || absI(pt2.Y-pt1.Y) > pow2(53)
@@ -1313,7 +1348,7 @@ package go_clipper2
 //@   ensures [rounds] (val < 2305843009213693951.0 && val > -2305843009213693951.0) ==> (toReal(result) - val <= 0.5 && val - toReal(result) <= 0.5)
 
 //@ func getClosestPtOnSegment
-//@   props C01 C13 C17 C19
+//@   props C01 C13 C17 C19 C02 C04 C05 C08 C09 C10
 //@   assumes dom(offPt,29) && dom(seg1,29) && dom(seg2,29)
 //@   ensures [within-box] min(seg1.X, seg2.X) <= result.X && result.X <= max(seg1.X, seg2.X) && min(seg1.Y, seg2.Y) <= result.Y && result.Y <= max(seg1.Y, seg2.Y)
 
@@ -1388,7 +1423,7 @@ package go_clipper2
 //@   ensures [tiny-triangle-rejected] !(op == nil || op.next == op || (!isOpen && op.next == op.prev)) ==> result == (len(*path) != 3 || isOpen || !tinyTri(ite(reverse, op, op.next)))
 
 //@ func clipperBase.buildPaths
-//@   props C02 C09
+//@   props C02 C09 C01 C17 C19 C04 C05 C08 C10
 //@   nosafety
 //@   arith math
 //@   loop 0 step [routing] i == old(i) + 1 && (old(c.outrecList[i].pts == nil) ==> (same(*solutionClosed, old(*solutionClosed)) && same(*solutionOpen, old(*solutionOpen)))) && (old(c.outrecList[i].pts != nil && c.outrecList[i].isOpen) ==> same(*solutionClosed, old(*solutionClosed))) && (old(c.outrecList[i].pts != nil && !c.outrecList[i].isOpen) ==> same(*solutionOpen, old(*solutionOpen)))
@@ -1692,7 +1727,7 @@ package go_clipper2
 //@   ensures [sides-follow-2] (old(ae2.outrec) != nil && old(ae1.outrec) != old(ae2.outrec)) ==> ((old(ae2.outrec.frontEdge) == ae2 ==> old(ae2.outrec).frontEdge == ae1) && (old(ae2.outrec.frontEdge) != ae2 ==> old(ae2.outrec).backEdge == ae1))
 
 //@ func clipperBase.swapPositionsInAEL
-//@   props C01 C03 C17 C19
+//@   props C01 C03 C17 C19 C02 C04 C05 C08 C09 C10
 //@   requires ae1 != nil && ae2 != nil && ae1 != ae2 && ae1.nextInAEL == ae2 && ae2.prevInAEL == ae1
 //@   requires ae2.nextInAEL != ae1 && ae2.nextInAEL != ae2 && ae1.prevInAEL != ae1 && ae1.prevInAEL != ae2
 //@   ensures [swapped] ae2.nextInAEL == ae1 && ae1.prevInAEL == ae2 && ae2.prevInAEL == old(ae1.prevInAEL) && ae1.nextInAEL == old(ae2.nextInAEL)
@@ -1701,7 +1736,7 @@ package go_clipper2
 //@   ensures [head-kept] old(ae1.prevInAEL) != nil ==> c.actives == old(c.actives)
 
 //@ func clipperBase.deleteFromAEL
-//@   props C01 C03 C12 C17 C19
+//@   props C01 C03 C12 C17 C19 C02 C04 C05 C08 C09 C10
 //@   requires ae != nil
 //@   assumes ae.prevInAEL != ae && ae.nextInAEL != ae
 //@   ensures [not-in-list-noop] (old(ae.prevInAEL) == nil && old(ae.nextInAEL) == nil && old(c.actives) != ae) ==> c.actives == old(c.actives)
@@ -1733,7 +1768,7 @@ package go_clipper2
 //@   ensures [registered] len(c.outrecList) == old(len(c.outrecList)) + 1 && c.outrecList[len(c.outrecList)-1] == ae1.outrec && ae1.outrec.idx == old(len(c.outrecList))
 
 //@ func roundToEven
-//@   props C01 C13 C03 C17 C19
+//@   props C01 C13 C03 C17 C19 C02 C04 C05 C08 C09 C10
 //@   requires absI(v) <= 4611686018427387904.0
 //@   ensures [nearest] absI(result - v) <= 0.5
 //@   ensures [integral] isIntegral(result)
@@ -1991,7 +2026,7 @@ package go_clipper2
 // ---------------------------------------------------------------------------------
 
 //@ func insertRightEdge
-//@   props C01 C03 C17 C19
+//@   props C01 C03 C17 C19 C02 C04 C05 C08 C09 C10
 //@   requires ae != nil && ae2 != nil && ae != ae2
 //@   assumes ae.nextInAEL != ae && ae.nextInAEL != ae2
 //@   ensures [inserted-after] ae.nextInAEL == ae2 && ae2.prevInAEL == ae && ae2.nextInAEL == old(ae.nextInAEL)
@@ -1999,14 +2034,14 @@ package go_clipper2
 //@   ensures [predecessor-kept] ae.prevInAEL == old(ae.prevInAEL)
 
 //@ func extractFromSEL
-//@   props C01 C03 C17 C19
+//@   props C01 C03 C17 C19 C02 C04 C05 C08 C09 C10
 //@   requires ae != nil
 //@   assumes ae.nextInSEL != ae && ae.prevInSEL != ae
 //@   ensures [returns-successor] result == old(ae.nextInSEL)
 //@   ensures [bypassed] (old(ae.nextInSEL) != nil ==> old(ae.nextInSEL).prevInSEL == old(ae.prevInSEL)) && (old(ae.prevInSEL) != nil ==> old(ae.prevInSEL).nextInSEL == old(ae.nextInSEL))
 
 //@ func insertBeforeInSEL
-//@   props C01 C03 C17 C19
+//@   props C01 C03 C17 C19 C02 C04 C05 C08 C09 C10
 //@   requires ae1 != nil && ae2 != nil && ae1 != ae2
 //@   assumes ae2.prevInSEL != ae2 && ae2.prevInSEL != ae1
 //@   ensures [inserted-before] ae1.nextInSEL == ae2 && ae2.prevInSEL == ae1 && ae1.prevInSEL == old(ae2.prevInSEL)
@@ -2078,7 +2113,7 @@ package go_clipper2
 
 // a new left bound is linked into the active list, and never between two edges that are joined
 //@ func clipperBase.insertLeftEdge
-//@   props C01 C03 C17 C19
+//@   props C01 C03 C17 C19 C02 C04 C05 C08 C09 C10
 //@   requires ae != nil
 //@   assumes c.actives != ae && forallp(e, Active, e.nextInAEL != ae && e.prevInAEL != ae)
 //@   assumes forallp(e, Active, e.joinWith == JoinRight ==> (e.nextInAEL != nil && e.nextInAEL.joinWith != JoinRight))
@@ -2091,7 +2126,7 @@ package go_clipper2
 // the geometric order test is kept opaque here (its own safety needs vertex-ring invariants that are
 // not stated); insertLeftEdge's list surgery does not depend on which answer it gives
 //@ func isValidAelOrder
-//@   props C01 C17 C19
+//@   props C01 C17 C19 C02 C04 C05 C08 C09 C10
 //@   pure
 //@   nosafety
 //@   assumes resident != nil && newcomer != nil && dom(resident.top, 29) && dom(resident.bot, 29) && dom(newcomer.top, 29) && dom(newcomer.bot, 29)
@@ -2152,7 +2187,7 @@ package go_clipper2
 // an intersection of two active edges is recorded where the edges cross whenever that point lies
 // inside the current scanbeam; only points outside it are repaired (C01, and C08 through the union)
 //@ func clipperBase.addNewIntersectNode
-//@   props C01 C08 C03 C17 C19
+//@   props C01 C08 C03 C17 C19 C02 C04 C05 C09 C10
 //@   nosafety
 //@   requires ae1 != nil && ae2 != nil
 //@   assumes dom(ae1.bot, 29) && dom(ae1.top, 29) && dom(ae2.bot, 29) && dom(ae2.top, 29) && absI(topY) <= pow2(29) && absI(c.currentBotY) <= pow2(29) && absI(ae1.curX) <= pow2(29)
@@ -2172,7 +2207,7 @@ package go_clipper2
 // at the top of a scanbeam every edge that ends there is moved to its top vertex before it is
 // processed as a maximum: doMaxima and the horizontals it triggers read curX (C01)
 //@ func clipperBase.doMaxima
-//@   props C01 C09 C02 C17 C19
+//@   props C01 C09 C02 C17 C19 C04 C05 C08 C10
 //@   nosafety
 //@   opaque clipperBase.intersectEdges clipperBase.swapPositionsInAEL clipperBase.split clipperBase.addLocalMaxPoly
 //@   requires [edge-stands-at-its-top] ae != nil && ae.curX == ae.top.X
@@ -2185,12 +2220,12 @@ package go_clipper2
 //@   loop 0 step [the-edge-is-crossed-with-its-right-neighbour-until-it-meets-its-partner] nextE == ae.nextInAEL
 
 //@ func clipperBase.doTopOfScanbeam
-//@   props C01 C17 C19
+//@   props C01 C17 C19 C02 C04 C05 C08 C09 C10
 //@   nosafety
 
 // kept opaque here: its own obligations need the vertex ring and the join preconditions
 //@ func clipperBase.updateEdgeIntoAEL
-//@   props C01 C02 C08 C17 C19
+//@   props C01 C02 C08 C17 C19 C04 C05 C09 C10
 //@   nosafety
 //@   opaque clipperBase.insertScanline trimHorz
 //@   assumes ae != nil && ae.vertexTop != nil && ae.localMin != nil && forallp(v, Vertex, v.next != nil && v.prev != nil && dom(v.pt, 61)) && forallp(e, Active, e.localMin != nil) && dom(ae.top, 61)
@@ -2208,13 +2243,13 @@ package go_clipper2
 // ---------------------------------------------------------------------------------
 
 //@ func isHotEdge
-//@   props C01 C02 C09 C03 C17 C19
+//@   props C01 C02 C09 C03 C17 C19 C04 C05 C08 C10
 //@   inline
 //@   requires ae != nil
 //@   ensures [has-an-output-record] result == (ae.outrec != nil)
 
 //@ func isOpen
-//@   props C09 C01 C03 C17 C19
+//@   props C09 C01 C03 C17 C19 C02 C04 C05 C08 C10
 //@   inline
 //@   requires ae != nil && ae.localMin != nil
 //@   ensures [open-flag-of-the-local-minimum] result == ae.localMin.IsOpen
@@ -2232,7 +2267,7 @@ package go_clipper2
 //@   ensures [open-edge-at-an-end-vertex] result == (ae.localMin.IsOpen && ((ae.vertexTop.flags & OpenStart) != None || (ae.vertexTop.flags & OpenEnd) != None))
 
 //@ func isFront
-//@   props C02 C01 C03 C17 C19
+//@   props C02 C01 C03 C17 C19 C04 C05 C08 C09 C10
 //@   inline
 //@   requires ae != nil && ae.outrec != nil
 //@   ensures [front-edge-of-its-record] result == (ae.outrec.frontEdge == ae)
@@ -2244,55 +2279,55 @@ package go_clipper2
 //@   ensures [front-edge-of-its-record] result == (hotEdge.outrec.frontEdge == hotEdge)
 
 //@ func isHorizontal
-//@   props C01 C09 C03 C17 C19
+//@   props C01 C09 C03 C17 C19 C02 C04 C05 C08 C10
 //@   inline
 //@   requires ae != nil
 //@   ensures [top-and-bottom-level] result == (ae.top.Y == ae.bot.Y)
 
 //@ func isHeadingRightHorz
-//@   props C01 C03 C17 C19
+//@   props C01 C03 C17 C19 C02 C04 C05 C08 C09 C10
 //@   inline
 //@   requires ae != nil
 //@   ensures [slope-is-minus-infinity] result == (ae.dx == negInf)
 
 //@ func isHeadingLeftHorz
-//@   props C01 C03 C17 C19
+//@   props C01 C03 C17 C19 C02 C04 C05 C08 C09 C10
 //@   inline
 //@   requires ae != nil
 //@   ensures [slope-is-plus-infinity] result == (ae.dx == posInf)
 
 //@ func getPolyType
-//@   props C01 C19 C03 C17
+//@   props C01 C19 C03 C17 C02 C04 C05 C08 C09 C10
 //@   inline
 //@   requires ae != nil && ae.localMin != nil
 //@   ensures [path-type-of-the-local-minimum] result == ae.localMin.PolyType
 
 //@ func isSamePolyType
-//@   props C01 C19 C03 C17
+//@   props C01 C19 C03 C17 C02 C04 C05 C08 C09 C10
 //@   inline
 //@   requires ae1 != nil && ae2 != nil && ae1.localMin != nil && ae2.localMin != nil
 //@   ensures [same-path-type] result == (ae1.localMin.PolyType == ae2.localMin.PolyType)
 
 //@ func nextVertex
-//@   props C01 C03 C17 C19
+//@   props C01 C03 C17 C19 C02 C04 C05 C08 C09 C10
 //@   inline
 //@   requires ae != nil && ae.vertexTop != nil
 //@   ensures [along-the-winding-direction] result == ite(ae.windDx > 0, ae.vertexTop.next, ae.vertexTop.prev)
 
 //@ func prevPrevVertex
-//@   props C01 C03 C17 C19
+//@   props C01 C03 C17 C19 C02 C04 C05 C08 C09 C10
 //@   inline
 //@   requires ae != nil && ae.vertexTop != nil && ae.vertexTop.prev != nil && ae.vertexTop.next != nil
 //@   ensures [two-back-against-the-winding-direction] result == ite(ae.windDx > 0, ae.vertexTop.prev.prev, ae.vertexTop.next.next)
 
 //@ func isMaxima
-//@   props C01 C03 C17 C19
+//@   props C01 C03 C17 C19 C02 C04 C05 C08 C09 C10
 //@   inline
 //@   requires vertex != nil
 //@   ensures [local-max-flag] result == ((vertex.flags & LocalMax) != None)
 
 //@ func isMaximaActive
-//@   props C01 C03 C17 C19
+//@   props C01 C03 C17 C19 C02 C04 C05 C08 C09 C10
 //@   inline
 //@   requires ae != nil && ae.vertexTop != nil
 //@   ensures [top-vertex-is-a-local-max] result == ((ae.vertexTop.flags & LocalMax) != None)
@@ -2311,7 +2346,7 @@ package go_clipper2
 //@   ensures [nothing-else] outrec.pts == old(outrec.pts) && outrec.owner == old(outrec.owner) && forallp(r, OutRec, r != outrec ==> (r.frontEdge == old(r.frontEdge) && r.backEdge == old(r.backEdge)))
 
 //@ func edgesAdjacentInAEL
-//@   props C01 C03 C17 C19
+//@   props C01 C03 C17 C19 C02 C04 C05 C08 C09 C10
 //@   inline
 //@   requires inode != nil && inode.edge1 != nil
 //@   ensures [neighbours-either-way] result == (inode.edge1.nextInAEL == inode.edge2 || inode.edge1.prevInAEL == inode.edge2)
@@ -2350,7 +2385,7 @@ package go_clipper2
 //@   ensures [sides-follow-1] (old(ae1.outrec) != nil && old(ae1.outrec) != old(ae2.outrec)) ==> ((old(ae1.outrec.frontEdge) == ae1 ==> old(ae1.outrec).frontEdge == ae2) && (old(ae1.outrec.frontEdge) != ae1 ==> old(ae1.outrec).backEdge == ae2))
 
 //@ func addLocMin
-//@   props C01 C09 C12 C03 C17 C19
+//@   props C01 C09 C12 C03 C17 C19 C02 C04 C05 C08 C10
 //@   inline
 //@   requires v != nil
 //@   ensures [already-a-minimum-noop] (old(v.flags) & LocalMin) != None ==> (len(*minimaList) == old(len(*minimaList)) && v.flags == old(v.flags))
@@ -2411,7 +2446,7 @@ package go_clipper2
 //@   ensures [leftmost-edge-has-none] ae.prevInAEL == nil ==> result == nil
 
 //@ func getMaximaPair
-//@   props C01 C03 C17 C19
+//@   props C01 C03 C17 C19 C02 C04 C05 C08 C09 C10
 //@   nosafety
 //@   assumes ae != nil
 //@   loop 0 invariant [walk] ((ae.nextInAEL != nil && ae.nextInAEL.vertexTop == ae.vertexTop) ==> ae2 == ae.nextInAEL) && (ae.nextInAEL == nil ==> ae2 == nil)
@@ -2420,7 +2455,7 @@ package go_clipper2
 //@   ensures [last-edge-has-none] ae.nextInAEL == nil ==> result == nil
 
 //@ func getCurrYMaximaVertex
-//@   props C01 C03 C17 C19
+//@   props C01 C03 C17 C19 C02 C04 C05 C08 C09 C10
 //@   nosafety
 //@   assumes ae != nil && ae.vertexTop != nil && forallp(v, Vertex, v.next != nil && v.prev != nil)
 //@   loop 0 invariant [level] result != nil && result.pt.Y == ae.vertexTop.pt.Y
@@ -2436,7 +2471,7 @@ package go_clipper2
 //@   ensures [a-local-max-on-the-top-level-of-the-edge-or-none] result == nil || ((result.flags & LocalMax) != None && result.pt.Y == ae.vertexTop.pt.Y)
 
 //@ func resetHorzDirection
-//@   props C01 C09 C03 C17 C19
+//@   props C01 C09 C03 C17 C19 C02 C04 C05 C08 C10
 //@   nosafety
 //@   assumes horz != nil
 //@   loop 0 invariant [walk] true
@@ -2470,7 +2505,7 @@ package go_clipper2
 // upwards (larger Y first), ties from left to right, and a crossing is only processed while its two edges are
 // neighbours in the active edge list
 //@ func clipperBase.processIntersectList
-//@   props C01 C17 C03 C08 C02 C19
+//@   props C01 C17 C03 C08 C02 C19 C04 C05 C09 C10
 //@   nosafety
 //@   opaque clipperBase.intersectEdges clipperBase.swapPositionsInAEL
 //@   assumes forall(k, 0, len(c.intersectList), c.intersectList[k] != nil && c.intersectList[k].edge1 != nil && c.intersectList[k].edge2 != nil)
@@ -2499,7 +2534,7 @@ package go_clipper2
 // registered as a local minimum (once), and between turns the direction is kept; an open path's first vertex
 // carries OpenStart and its last vertex OpenEnd; no paths, no change
 //@ func addPathsToVertexList
-//@   props C09 C17 C01 C19 C03
+//@   props C09 C17 C01 C19 C03 C02 C04 C05 C08 C10
 //@   nosafety
 //@   loop 1.3 step [a-turn-from-up-to-down-is-a-local-maximum] (old(goingUp) && old(currV).pt.Y > old(prevV).pt.Y) ==> ((old(prevV).flags & LocalMax) != None && !goingUp && len(*minimaList) == old(len(*minimaList)))
 //@   loop 1.3 step [a-turn-from-down-to-up-is-a-local-minimum] (!old(goingUp) && old(currV).pt.Y < old(prevV).pt.Y) ==> (goingUp && (old(prevV).flags & LocalMin) != None && ((old(old(prevV).flags) & LocalMin) == None ==> (len(*minimaList) == old(len(*minimaList)) + 1 && (*minimaList)[len(*minimaList)-1].Vertex == old(prevV) && (*minimaList)[len(*minimaList)-1].PolyType == polytype && (*minimaList)[len(*minimaList)-1].IsOpen == isOpen)))
@@ -2516,7 +2551,7 @@ package go_clipper2
 // vertex winds negatively, the one towards the next vertex positively; the bound that leaves to the left is inserted
 // as the left bound, its partner directly to its right with the same winding counts
 //@ func clipperBase.insertLocalMinimaIntoAEL
-//@   props C01 C09 C17 C03 C19
+//@   props C01 C09 C17 C03 C19 C02 C04 C05 C08 C10
 //@   nosafety
 //@   opaque clipperBase.isContributingClosed clipperBase.isContributingOpen clipperBase.intersectEdges clipperBase.swapPositionsInAEL clipperBase.insertScanline clipperBase.checkJoinLeft clipperBase.checkJoinRight clipperBase.setWindCountForClosedPathEdge clipperBase.setWindCountForOpenPathEdge
 //@   assumes forallp(v, Vertex, dom(v.pt, 61) && v.next != nil && v.prev != nil) && forallp(m, LocalMinima, m.Vertex != nil)
@@ -2531,7 +2566,7 @@ package go_clipper2
 // discarded before the sweep leaves that scanline - a segment that survived could later be paired with a segment of
 // another scanline, because pairing only compares X ranges and directions
 //@ func clipperBase.executeInternal
-//@   props C17 C02 C01 C19
+//@   props C17 C02 C01 C19 C04 C05 C08 C09 C10
 //@   nosafety
 //@   opaque clipperBase.popScanline clipperBase.reset
 //@   assert after c.currentBotY#0 [horizontal-segments-are-consumed-before-the-sweep-leaves-their-scanline] len(c.horzSegList) == 0
@@ -2549,7 +2584,7 @@ package go_clipper2
 // the horizontal's level, and it advances to that X; unless it ends at the maximum it is heading for, it never
 // crosses an edge that stands beyond the far end of its span - an open path's last horizontal included
 //@ func clipperBase.doHorizontal
-//@   props C01 C09 C03 C17 C19
+//@   props C01 C09 C03 C17 C19 C02 C04 C05 C08 C10
 //@   nosafety
 //@   opaque clipperBase.intersectEdges clipperBase.swapPositionsInAEL clipperBase.checkJoinLeft clipperBase.checkJoinRight clipperBase.split clipperBase.addLocalMaxPoly clipperBase.updateEdgeIntoAEL topX
 //@   assumes horz != nil && horz.localMin != nil && horz.vertexTop != nil && forallp(v, Vertex, v.next != nil && v.prev != nil) && forallp(e, Active, e.localMin != nil && e.vertexTop != nil)
@@ -2562,7 +2597,7 @@ package go_clipper2
 // only for pairs that are out of order there; a pair in order is left alone, an out-of-order right edge is moved
 // directly in front of the left edge it has overtaken
 //@ func clipperBase.buildIntersectList
-//@   props C01 C03 C17 C19
+//@   props C01 C03 C17 C19 C02 C04 C05 C08 C09 C10
 //@   nosafety
 //@   opaque clipperBase.addNewIntersectNode clipperBase.adjustCurrXAndCopyToSEL
 //@   assumes len(c.intersectList) == 0
@@ -2573,7 +2608,7 @@ package go_clipper2
 // the sorted edge list is a copy of the active edge list taken at the top of the scanbeam, with every edge moved
 // to its X at that level (C01); the intersections of a beam are built, processed and then discarded (C12)
 //@ func clipperBase.adjustCurrXAndCopyToSEL
-//@   props C01 C03 C17 C19
+//@   props C01 C03 C17 C19 C02 C04 C05 C08 C09 C10
 //@   nosafety
 //@   assumes forallp(e, Active, dom(e.bot, 52) && dom(e.top, 52) && absI(e.dx * toReal(topY - e.bot.Y)) <= toReal(pow2(54))) && absI(topY) <= pow2(52)
 //@   loop 0 step [each-edge-is-copied-with-its-neighbours-and-moved-to-the-top-of-the-beam] old(ae).prevInSEL == old(ae).prevInAEL && old(ae).nextInSEL == old(ae).nextInAEL && old(ae).jump == old(ae).nextInAEL && ae == old(ae).nextInAEL
@@ -2582,26 +2617,26 @@ package go_clipper2
 //@   ensures [the-copy-starts-at-the-head-of-the-active-list] c.sel == c.actives && c.actives == old(c.actives)
 
 //@ func clipperBase.doIntersections
-//@   props C01 C12 C03 C17 C19
+//@   props C01 C12 C03 C17 C19 C02 C04 C05 C08 C09 C10
 //@   nosafety
 //@   opaque clipperBase.processIntersectList
 //@   assumes len(c.intersectList) == 0
 //@   ensures [crossings-do-not-outlive-their-beam] len(c.intersectList) == 0
 
 //@ func clipperBase.pushHorz
-//@   props C01 C03 C17 C19
+//@   props C01 C03 C17 C19 C02 C04 C05 C08 C09 C10
 //@   inline
 //@   requires ae != nil
 //@   ensures [pushed-on-the-stack-of-pending-horizontals] c.sel == ae && ae.nextInSEL == old(c.sel)
 
 //@ func clipperBase.hasLocMinAtY
-//@   props C01 C03 C17 C19
+//@   props C01 C03 C17 C19 C02 C04 C05 C08 C09 C10
 //@   inline
 //@   nosafety
 //@   ensures [next-unprocessed-minimum-lies-on-this-scanline] result == (c.currentLocMin < len(c.minimaList) && c.minimaList[c.currentLocMin].Vertex.pt.Y == y)
 
 //@ func clipperBase.popLocalMinima
-//@   props C01 C03 C17 C19
+//@   props C01 C03 C17 C19 C02 C04 C05 C08 C09 C10
 //@   inline
 //@   nosafety
 //@   ensures [minima-are-taken-in-list-order-each-once] result == c.minimaList[old(c.currentLocMin)] && c.currentLocMin == old(c.currentLocMin) + 1
@@ -2613,7 +2648,7 @@ package go_clipper2
 // ---------------------------------------------------------------------------------
 
 //@ func BooleanOpPaths64 variant wiring
-//@   props C19 C01 C07 C12 C17
+//@   props C19 C01 C07 C12 C17 C02 C04 C05 C08 C09 C10
 //@   nosafety
 //@   opaque clipper64.AddPaths clipper64.Execute
 //@   assert after call:clipper64.AddPaths#0 [the-subject-set-is-added-as-closed-subject-paths] same(arg0, subject) && arg1 == Subject && !arg2
@@ -2690,7 +2725,7 @@ package go_clipper2
 // segsIntersect (exclusive form): true exactly for a proper crossing - the end points of each segment lie strictly
 // on opposite sides of the other segment's line (exact integer cross products)
 //@ func segsIntersect
-//@   props C01 C02 C14 C03 C17 C19
+//@   props C01 C02 C14 C03 C17 C19 C04 C05 C08 C09 C10
 //@   requires dom(seg1a, 29) && dom(seg1b, 29) && dom(seg2a, 29) && dom(seg2b, 29)
 //@   ensures [proper-crossing] !inclusive ==> result == (((cross(seg1a, seg2a, seg2b) > 0 && cross(seg1b, seg2a, seg2b) < 0) || (cross(seg1a, seg2a, seg2b) < 0 && cross(seg1b, seg2a, seg2b) > 0)) && ((cross(seg2a, seg1a, seg1b) > 0 && cross(seg2b, seg1a, seg1b) < 0) || (cross(seg2a, seg1a, seg1b) < 0 && cross(seg2b, seg1a, seg1b) > 0)))
 //@   ensures [inclusive-same-side-is-no-crossing] (inclusive && ((cross(seg1a, seg2a, seg2b) > 0 && cross(seg1b, seg2a, seg2b) > 0) || (cross(seg1a, seg2a, seg2b) < 0 && cross(seg1b, seg2a, seg2b) < 0))) ==> !result
@@ -2721,7 +2756,7 @@ package go_clipper2
 
 // trimHorz: a horizontal edge only ever absorbs following vertices on its own level; its bottom never moves
 //@ func trimHorz
-//@   props C01 C02 C03 C17 C19
+//@   props C01 C02 C03 C17 C19 C04 C05 C08 C09 C10
 //@   nosafety
 //@   opaque setDx
 //@   assumes horzEdge != nil && horzEdge.vertexTop != nil && horzEdge.top == horzEdge.vertexTop.pt && forallp(v, Vertex, v.next != nil && v.prev != nil)
